@@ -322,11 +322,12 @@ def c09(out):
     for vname, cases in v:
         exe = build_driver("drv_buf", ["drv_buf.c"] + HIST, vname)
         run_sharded(out, exe, ["--prop", "C09", "--mode", "c09"], vname, cases)
-    if out.tier == "thorough":
-        exe = build_driver("drv_buf_vg", ["drv_buf.c"] + HIST, "prod", extra=["-DVH_VALGRIND"])
-        run_sharded(out, exe, ["--prop", "C09", "--mode", "c09", "--case-timeout", "600"], "prod", 40000, label="memcheck", timeout=3000,
-                    wrapper=["valgrind", "-q", "--error-exitcode=99", "--exit-on-first-error=yes", "--undef-value-errors=no"])
-        out.variants.append("prod under valgrind memcheck (NOACCESS slack)")
+    # byte-exact on both sides of every buffer (ASan cannot poison the bytes in front of a misaligned buffer inside its 8-byte granule):
+    # the shipped build under memcheck with the slack marked NOACCESS; a small sample in the quick tier, 40 000 cases in thorough
+    exe = build_driver("drv_buf_vg", ["drv_buf.c"] + HIST, "prod", extra=["-DVH_VALGRIND"])
+    run_sharded(out, exe, ["--prop", "C09", "--mode", "c09", "--case-timeout", "600"], "prod", 3200 if out.tier == "quick" else 40000, label="memcheck", timeout=3000,
+                wrapper=["valgrind", "-q", "--error-exitcode=99", "--exit-on-first-error=yes", "--undef-value-errors=no"])
+    out.variants.append("prod under valgrind memcheck (NOACCESS slack)")
     out.assumptions += ["on the prod build an overrun smaller than the alignment slack of a misaligned placement is seen only as a damaged canary (writes) - byte-exact read detection comes from the asan and memcheck variants",
                         "partial overlap for bulk calls is not promised and not tested"]
 
